@@ -733,7 +733,16 @@ def run(ctx):
                 'two-call histories over one window (also windows with intraday endpoints) with the first returned list changed in place in between (results are history independent); '
                 'mismatches are classified by Trace_Drange. C2S: random start days of 1911-2289, spans up to several years, all bump kinds, 20% '
                 'pointing away, plus whole-day movements in every admitted spelling between endpoints with times of day of their own (whole days apart, '
-                'off by a time of day / a second / a microsecond, shorter than a day or than one bump), validated by Trace_Drange. Non-trivial = a list of at least 2 elements or a rejection; distinct by (t0, t1, bump).')
+                'off by a time of day / a second / a microsecond, shorter than a day or than one bump), validated by Trace_Drange. Non-trivial = a list of at least 2 elements or a rejection; distinct by (t0, t1, bump). '
+                'SESSIONS (DrangeSession.tla: the process around the one-call machine - actions Call, EditCal = the caller edits the default calendar through calendar(), Mutate = the caller '
+                'changes a returned list in place): NoMemory / RegistryBlind / ResultOwned = every call returns the law of the values its own arguments denote, whatever the process called before, '
+                'whatever calendars it registered (business-day bumps list WEEKDAYS), whatever happened to earlier results; the mechanism variants memo (heading of a compound bump memoised per '
+                'bump string), regcal (business days asked of the default calendar), cache (cached list handed out) each violate their clause (must_fail, thorough tier). The universe holds compound bumps '
+                'whose heading depends on the start date (1m-30d, -1m30d, 1b-2d, -1b2d, 2b-3d) where the iteration is steady (Drange!Steady; also a family of the one-call model). S2C: TLC prints scripts - every ordered pair of '
+                'calls colliding on what a memo could be keyed on (one bump from two windows / both headings / accepted then rejected; one window with two bumps), registry edits (8 forms: new default calendar with holidays / another weekend / both, '
+                'a Calendar object registered, holidays added in place, reset, another key) before and between business-day calls, every realisation of each argument (bump: Python int, numpy ints of every width, array / Series items; '
+                'timedelta, subclass, pandas Timedelta; period strings lower / upper / mixed / signed / str subclass / numpy str_; t0, t1: datetime, subclass, Timestamp, date, datetime64[D, s, us, ns], yyyymmdd int, four string formats) and the same call twice in two realisations of the bump; '
+                'thorough: 800 TLC-simulated sessions of 8 steps - replayed in ONE process in a fixed mixed order, each call == an outcome the law accepts; a seeded sample (thorough: all) of these observations is also validated by Trace_Drange (which reads neither `before` nor `reals` beyond the domain test).')
     ctx.mc('MC_Drange', 'MC_Drange_quick.cfg' if ctx.quick else 'MC_Drange_thorough.cfg')
     _timeouts[:] = [0, 0.0, SLOW_BUDGET_S['quick' if ctx.quick else 'thorough']]
     ctx.mc('MC_DrangeSession', 'MC_DrangeSession_quick.cfg' if ctx.quick else 'MC_DrangeSession_thorough.cfg')
@@ -763,6 +772,12 @@ def run(ctx):
         'compound tenors of the random driver have parts of one sign, or a dominating leading month/year part, so that every step moves the same way',
         't0 = t1 on a weekend with a business-day bump: both [t0] and [] are accepted (named deviation SinglePointWeekend)',
         'integer bumps are called only between endpoints a whole number of days apart (the quantifier); timedelta(days=n), nd and kw between any endpoints',
+        'sessions run in this one process (no isolation between them: the law has no memory, so every call must satisfy it whatever ran before); after a session that edited the default calendar the driver '
+        'puts it back with calendar(None, holidays = [], weekend = [5, 6]); a failing call is recorded with its session and the first call the process made with the same bump (for --replay)',
+        'compound bumps whose heading depends on the start date are claimed only where every step of the iteration moves towards t1 and month parts meet days <= 28 (Drange!Steady): elsewhere the iteration turns round '
+        "(drange(Mon, Sun, '1b-2d') and drange(1 Jan 2001, 15 Mar 2001, '1m-30d') never return today) - not claimed by the statement",
+        'realisations (Drange!RealsOk): numpy.timedelta64 is not a timedelta for pyg_base (dt_bump and drange raise TypeError) and is left out; numpy integers as yyyymmdd endpoints are left out (dt raises TypeError; a matter of C04); '
+        'bool bumps are not exercised; named restriction UnsignedOnlyToward: an unsigned numpy integer pointing away from t1 raises OverflowError inside numpy instead of ValueError - reported, kept out of the domain; np_ns endpoints 1700-2250 only',
         'small-scope: model checking covers the case menus of MC_Drange.tla (14 start days, spans <= 12 / 40 days, <= 13 / 36 months; whole-day bumps x '
         'intraday endpoints: 4 starts x 5 times of day and +-1 us x day offsets <= 5 / 15); '
         'trace verdicts hold for the calls actually recorded',
